@@ -85,6 +85,8 @@ def gen(rng, tier):
         cases.append(mk(kind, form, shape, s, e))
         if kind == "infer" and rng.random() < 0.3:
             cases[-1]["preset"] = True
+        elif kind == "infer" and rng.random() < 0.35:
+            cases[-1]["loop"] = True
     # ndarray shapes of narrow integer dtypes whose merged product exceeds the dtype's range
     for _ in range(40 if tier == "quick" else 600):
         dt = rng.choice(["int8", "uint8", "int16", "uint16", "int32"])
@@ -149,6 +151,14 @@ def recipe_for(c):
         edges = [("in", "pre"), ("pre", "fl"), ("fl", "out")]
     nodes["fl"] = {"k": "Flatten", "args": {"input_type": None, "start_dim": c["s"], "end_dim": c["e"]}}
     nodes["out"] = {"k": "Output", "args": {"output_type": None}}
+    if c.get("loop"):
+        # a recurrent block of two nodes in front of the Flatten (type-consistent): in -> a, a -> b, b -> a, a -> fl
+        sh = tuple(int(x) for x in c["shape"])
+        import math as _m
+        if _m.prod(sh) <= 4096 and not pre:
+            nodes["ra"] = {"k": "Scale", "args": {"scale": np.ones(sh, dtype="float32")}}
+            nodes["rb"] = {"k": "Threshold", "args": {"threshold": np.ones(sh, dtype="float32")}}
+            edges = [("in", "ra"), ("ra", "rb"), ("rb", "ra"), ("ra", "fl"), ("fl", "out")]
     return {"k": "NIRGraph", "nodes": nodes, "edges": edges}
 
 
@@ -161,7 +171,7 @@ def run(c):
     a = s + n if s < 0 else s
     b = e + n if e < 0 else e
     nontriv = exp is not None and n >= 2 and (b > a or s < 0 or e < 0)
-    sig = (c["kind"], c["form"], tuple(shape), s, e, c.get("pre"), c.get("stale"), c.get("preset"))
+    sig = (c["kind"], c["form"], tuple(shape), s, e, c.get("pre"), c.get("stale"), c.get("preset"), c.get("loop"))
     fail = None
     if c["kind"] == "util":
         try:
